@@ -241,7 +241,20 @@ func newBoundMethod(name string, fn interface{}) (Object, error) {
 // typeAttr marks a method of a builtin type which was found as
 // attribute key of type t with the type defining it, so that calling
 // it through the type checks the type of its self argument
+//
+// A classmethod or staticmethod found that way is bound as its __get__
+// says: C.m binds the class C, a staticmethod yields the plain callable.
 func typeAttr(t *Type, key string, res Object) Object {
+	switch d := res.(type) {
+	case *ClassMethod:
+		if bound, err := d.M__get__(None, t); err == nil {
+			return bound
+		}
+	case *StaticMethod:
+		if fn, err := d.M__get__(None, t); err == nil {
+			return fn
+		}
+	}
 	m, ok := res.(*Method)
 	if !ok || m.Module != nil || m.boundSelf {
 		return res
